@@ -327,15 +327,20 @@ func c08Outage(r *zsim.Run) {
 		srv.Latency = 2 * time.Millisecond
 	}
 	start := time.Now()
-	type adm struct{ at time.Time }
-	var admitted []time.Time
+	var admitted []time.Time // one entry per admitted token
 	offered := 0
 	dur := time.Duration(2+o.Intn(8)) * time.Second
 	for time.Since(start) < dur && !r.Failed() {
 		for k := 0; k < 1+o.Intn(burst+2); k++ {
-			offered++
-			if tl.AllowN(time.Now(), 1) {
-				admitted = append(admitted, time.Now())
+			n := 1
+			if o.Intn(3) == 0 {
+				n = 1 + o.Intn(burst)
+			}
+			offered += n
+			if tl.AllowN(time.Now(), n) {
+				for j := 0; j < n; j++ {
+					admitted = append(admitted, time.Now())
+				}
 			}
 		}
 		srv.Advance(time.Duration(50+o.Intn(400)) * time.Millisecond)
@@ -346,7 +351,7 @@ func c08Outage(r *zsim.Run) {
 		for j := i; j < len(admitted); j++ {
 			secs := admitted[j].Unix() - admitted[i].Unix() + 1
 			if n := j - i + 1; int64(n) > int64(burst)+int64(rate)*secs {
-				r.Failf("outage-admits-too-many", "while Redis was unreachable %d requests were admitted between %v and %v (%d whole seconds): more than burst %d + rate %d x seconds", n, admitted[i].Sub(start), admitted[j].Sub(start), secs, burst, rate)
+				r.Failf("outage-admits-too-many", "while Redis was unreachable %d tokens were granted between %v and %v (%d whole seconds): more than burst %d + rate %d x seconds", n, admitted[i].Sub(start), admitted[j].Sub(start), secs, burst, rate)
 				return
 			}
 		}
